@@ -275,6 +275,23 @@ pub fn run(ctx: &'static Ctx) {
         run_grid("complete header space x decisive shapes", "256 x 256 x 256 headers x {no data, 64 bytes, 65+1 bytes} x applicable encodings", all.clone(), all.clone(), all.clone(), vec![0x00], key_shapes.clone(), false);
     }
     run_grid("owned Command<1024> conversion", "classes {00,01,80,FE,FF} x all instructions x 11 P1 x every body through try_from(&Command<S>)", vec![0x00, 0x01, 0x80, 0xfe, 0xff], all.clone(), p1s.to_vec(), vec![0x00], all_shapes.clone(), true);
+    {
+        let mut items: Vec<(String, Box<dyn Fn() -> String + Sync>)> = Vec::new();
+        let picks: Vec<usize> = shapes.iter().enumerate().filter(|(_, s)| matches!(s.data.len(), 0 | 64 | 65 | 66 | 320) && s.enc % 2 == 0).map(|(i, _)| i).collect();
+        for (cla, ins, p1) in [(0u8, 1u8, 0u8), (0, 2, 3), (0, 2, 7), (0, 2, 9), (0, 3, 0), (0, 4, 0), (0x80, 3, 0), (1, 1, 0)] {
+            for si in &picks {
+                let sh = &shapes[*si];
+                let mut bytes = vec![cla, ins, p1, 0];
+                bytes.extend_from_slice(&sh.body);
+                let data = sh.data.clone();
+                items.push((format!("cla={:#x} ins={} p1={} len={} enc={}", cla, ins, p1, data.len(), sh.enc), Box::new(move || {
+                    let v = check_view(cla, ins, p1, &data, &bytes);
+                    format!("{}:{}", v.ok, v.observed)
+                })));
+            }
+        }
+        pair_histories(ctx, P, "conversion call pairs", "every ordered pair of header x shape samples converted back to back", &items);
+    }
     ctx.require_outcomes(&["ClassNotSupported", "Version", "Register", "Authenticate", "IncorrectDataParameter", "InstructionNotSupportedOrInvalid", "rejected by iso7816 (class 0xFF)"]);
     ctx.sample(json!({"apdu": "00 02 07 00 | 00 01 40 <320 bytes, data[64]=255> 00 00", "oracle": "Authenticate(check-only), key handle = data[65..320]"}));
     ctx.sample(json!({"apdu": "00 01 00 00 41 <65 bytes> ", "oracle": "IncorrectDataParameter"}));
